@@ -108,7 +108,7 @@ def check (H : Bytes → Bytes) (p q : Info) : R Bool := do
 
 /-- `formatparam(k, v)` for an octet value -/
 def formatParam (k v : Bytes) : Bytes :=
-  if v.isEmpty then k
+  if v.isEmpty then k ++ [0x3D, 0x22, 0x22]          -- `name=""` (the F66 repair: a bare name is no auth-param)
   else if v.any isTSpecial then k ++ [0x3D, 0x22] ++ escapeQuoted v ++ [0x22]
   else k ++ 0x3D :: v
 
